@@ -128,19 +128,18 @@ Definition fit (k : N) (tok : Z) : Z := if k =? BK_BOOL then Z.modulo tok 2 else
 
 Section mark.
   Variable e : env.
-  (* value of type t carrying token tok at its first markable leaf; fresh addresses from the counter *)
+  (* value of type t carrying token tok at every markable leaf (basic values below pointers, one-element slices and struct fields); fresh addresses from the counter *)
+  (* every field of a struct is marked *)
   Fixpoint mark_fields (mk : ty -> N -> val * N * bool) (zr : ty -> val) (l : list (rstr * ty)) (st : N) (done : bool) {struct l} : list val * N * bool :=
     match l with
     | [] => ([], st, done)
     | (_, ft) :: r =>
-      if done then let '(vs, st', d) := mark_fields mk zr r st true in (zr ft :: vs, st', d)
-      else let '(v, st1, ok) := mk ft st in
-           if ok then let '(vs, st', d) := mark_fields mk zr r st1 true in (v :: vs, st', d)
-           else let '(vs, st', d) := mark_fields mk zr r st false in (zr ft :: vs, st', d)
+      let '(v, st1, ok) := mk ft st in
+      let '(vs, st', d) := mark_fields mk zr r st1 (done || ok) in (v :: vs, st', d)
     end.
   Fixpoint mark (fuel : nat) (t : ty) (tok : Z) (st : N) {struct fuel} : val * N * bool :=   (* value, counter, marked? *)
     match fuel with
-    | O => (VNil, st, false)
+    | O => (zero e ZFUEL t, st, false)
     | S f =>
       match under e t with
       | TBasic k => (VBasic (fit k tok), st, true)
